@@ -356,6 +356,7 @@ def check(prop, tier='quick', seed=None, runs=None, quiet=False):
     for kid, (k, n) in sorted(known_hits.items()):
         print('KNOWN-FINDING: property=%s %s [%s, seen %d times]' % (prop, k['what'], kid, n))
     for v, path, more in viols:
+        v['detail'] = v['detail'].encode('utf-8', 'backslashreplace').decode('utf-8')
         print('violation class=%s: %s%s' % (v['class'], v['detail'][:300],
                                             ' (+%d more runs of this class)' % more if more else ''))
         print('VIOLATION property=%s replay=%s' % (prop, path))
